@@ -47,6 +47,10 @@ CHECKS = {
    text="Process states are constructed as root (pairwise distinct real/effective/saved uids and gids with and without passwd/group entries up to 2^32-2, sessions, deep/renamed/deleted/over-long cwd, stdin on own pty / foreign-owned pty / pipe / file / closed, UTS hostnames, environments incl. NULL and odd names, ancestor chains, utmp entries with IPv4/IPv6 addresses); right before each wrapped call the driver emits an ORACLE event from raw syscalls and its own /proc parsing, and the record with every data source is compared field by field with values derived offline from that event, the harness's own passwd/group/hosts/utmp files (bind-mounted in its mount namespace) and a time bracket.",
    note="systemd_unit_name and snoopy_configure_command are not judged; placeholder wording for ids without entries is open (numeric form must carry the true unsigned id); assumes /etc/localtime is UTC in this sandbox."),
 
+ "C13": dict(level="exploration", design="3/C13", technique="runtime introspection of compiled registries over enumerated build configurations (name -> implementation symbol map) + end-to-end configure builds",
+   text="For every enumerated configuration (all on, all off, each with thread safety on/off, each single feature off, each single feature on, every pair off in thorough, random subsets) the three registry translation units of the working tree are compiled against that configuration's config.h, linked with all implementation objects, and a probe walks names[i]/ptrs[i]; nm resolves each pointer and the oracle demands name X -> snoopy_datasource_X / snoopy_filter_X / snoopy_output_Xoutput, the exact enabled name set, intact terminators and equal array lengths. 4 (quick) / 24 (thorough) configurations are also built with the repo's real ./configure --disable-... and every name is called through the lookup-by-name path in a state where all sources give different values.",
+   note="The quantifier's 'all 2^N combinations at once from the guard structure' is a static argument that this runtime technique does not attempt: single-, pair- and random-subset configurations are what is covered."),
+
  "C14": dict(level="exploration", design="3/C14", technique="runtime monitoring under constructed uids",
    text="Children running under real uid R (0, 1, 999, 2^16-1, 2^16, 2^31-1, 2^31, 2^32-2) with an unrelated effective uid consult only_uid:L, exclude_uid:L and only_root through the production library for generated lists with near misses; outcomes are compared with exact set membership and only_uid xor exclude_uid.",
    note="Lists limited to one config line (about 85 uids)."),
